@@ -135,7 +135,11 @@ ITEMS += [
          ret=None, ensures=[('exact_value', 'final(self)@ == old(self)@ * other@')], props=P6),
     Item(id='add_assign_i64', source='src/nint.rs', frm='expanded', locator=M + 'impl AddAssign<i64> for NInt / fn add_assign',
          ret=None, ensures=[('exact_value', 'final(self)@ == old(self)@ + other')], props=P6),
-    # DivAssign<u32> for NInt is not under contract: Verus rejects `/` on signed machine integers (`*a /= other as i64`)
+    # Verus rejects `/` on signed machine integers: `*a /= other as i64` is rewritten to the trusted `i64_trunc_div` (Rust's `/`)
+    Item(id='div_assign_u32', source='src/nint.rs', frm='expanded', locator=M + 'impl DivAssign<u32> for NInt / fn div_assign',
+         ret=None, ensures=[('truncating_quotient', 'final(self)@ == trunc_div(old(self)@, other as int)')],
+         subst=[(r'\*a /= other as i64', '*a = i64_trunc_div(*a, other as i64)', "signed `/` is outside Verus' subset; i64_trunc_div is Rust's `/` with its panic conditions as precondition")],
+         props=P6),
     Item(id='lazy_is_prime', source='src/nint.rs', frm='expanded', locator=M + 'impl NInt / fn lazy_is_prime',
          ensures=[('decides_primality', 'r == is_prime(self@)')],
          loops={1: dict(invariant=[('setup', 'self@ > 3 && self@ % 2 != 0 && self@ % 3 != 0 && s@ == int_sqrt(self@)'),
@@ -178,6 +182,11 @@ impl AddAssignSpecImpl<i64> for NInt {
     open spec fn obeys_add_assign_spec() -> bool { false }
     open spec fn add_assign_req(&self, rhs: i64) -> bool { true }
     open spec fn add_assign_spec(&self, rhs: i64) -> &NInt { arbitrary() }
+}
+impl DivAssignSpecImpl<u32> for NInt {
+    open spec fn obeys_div_assign_spec() -> bool { false }
+    open spec fn div_assign_req(&self, rhs: u32) -> bool { rhs != 0 }
+    open spec fn div_assign_spec(&self, rhs: u32) -> &NInt { arbitrary() }
 }
 impl MulAssignSpecImpl<&NInt> for NInt {
     open spec fn obeys_mul_assign_spec() -> bool { false }
